@@ -176,6 +176,9 @@ class Domain(object):
         if self.cfg.get("sub"):
             # the container is an instance of a trivial user subclass
             from . import subcls
+            if self.cfg["sub"] == "leaf" and is_tree(kind):
+                # ... which also names a leaf class of its own
+                return subcls.get_custom(self.fam, kind, impl)()
             return subcls.get(self.fam, kind, impl)()
         return self.cls(kind, impl)()
 
